@@ -200,6 +200,7 @@ pub fn emit_stats_case<T: Sc>(out: &mut Out, fc: &FitCase<T>) {
             if let Some(st) = so.stats {
                 out.line(&format!("st cov {}", mat_str(&st.covariance)));
                 out.line(&format!("st corr {}", mat_str(&st.correlation)));
+                out.line(&format!("stc corr {}", mat_str(&st.correlation_alias)));
                 out.line(&format!("st wres {}", vec_str(&st.weighted_residuals)));
                 out.line(&format!("st chi2 {}", hex(st.reduced_chi2.f())));
                 out.line(&format!("st sigma {}", hex(st.sigma.f())));
